@@ -19,7 +19,10 @@ B = the bytes its composed writes were accepted for, cut into requests at CRLF C
   * a client whose connect was started while the proxy had not been stopped is accepted as soon as
     no other session is in progress (`accepts_next`), and is served as above (an accepted client that
     sent a complete well-formed first request is never just closed: `served`); after `stop` no
-    connect succeeds (`stopped`).
+    connect succeeds (`stopped`);
+  * names are resolved through the simulated resolver and nothing else is: every lookup issued from
+    the proxy's node is for the host of some request a client sent, and that host is not an address
+    literal (`lookup_is_requested_name`).
 
 Reads use buffers of at most 48 bytes in the generated scenarios, so every byte is in the trace."""
 import re
@@ -148,6 +151,7 @@ def _check(impl, scn):
     def S(n):
         if n not in socks: socks[n] = Sock(n)
         return socks[n]
+    lookups = []
     acceptor_ep = {}; stop_t = None; now = 0; ended = False; crashed = False; proxy_alive = False
     n_conn = 0; n_acc = {}
     started_sends = {}
@@ -193,6 +197,9 @@ def _check(impl, scn):
                 if ec == "ok": s.recv += _unhex(d.get("data"))
                 elif s.eof is None: s.eof = ec
         elif tk[0] == "R" and " n=" in ln: ended = True
+        elif tk[0] == "L" and len(tk) >= 5:
+            d = _kv(tk[2:])
+            if d.get("req") in ips: lookups.append(_unhex(d.get("name")))
     if crashed or not proxy_alive: return fails
     # ----- client sessions in the order the proxy accepted them (= order their connects completed)
     clients = [s for s in socks.values() if s.target == proxy_ep]
@@ -202,7 +209,7 @@ def _check(impl, scn):
         if s.accepted_by and s.accepted_by in acceptor_ep:
             origin_conns.setdefault(acceptor_ep[s.accepted_by], []).append(s)
     for l in origin_conns.values(): l.sort(key=lambda s: s.accept_order)
-    used = {}
+    pending = {}
     busy_at_end = False
     for c in clients:
         if c.connect_ec is None:
@@ -255,50 +262,85 @@ def _check(impl, scn):
                 elif c.eof is None:
                     fails.append(("answers_503", "%s: 503 sent but the connection was not closed" % c.name))
             continue
-        # a listening origin: the k-th session naming it gets its k-th accepted connection
-        k = used.get(ep, 0); used[ep] = k + 1
-        conns = origin_conns.get(ep, [])
-        oc = conns[k] if k < len(conns) else None
-        # expected origin-form requests: the leading requests that name the same origin
+        # a listening origin: judged below, once all sessions naming it are known
         exp = []
         for r in reqs:
             pr = parse_request(r)
             a2 = authority(pr["target"]) if pr else None
             if pr is None or a2 is None or (a2[0], a2[1]) != (host, port): break
             exp.append((pr, a2))
-        all_same = len(exp) == len(reqs)
+        pending.setdefault(ep, []).append(dict(c=c, exp=exp, all_same=len(exp) == len(reqs), tail=tail))
+
+    def judge(ep, sess, oc):
+        """the statement for one session and the origin connection attributed to it (or None)"""
+        f = []
+        c, exp, all_same, tail = sess["c"], sess["exp"], sess["all_same"], sess["tail"]
         if oc is None:
-            if c.recv: fails.append(("relay_verbatim", "%s received %r but no origin connection exists for it" % (c.name, c.recv[:40])))
+            if c.recv: f.append(("relay_verbatim", "%s received %r but no origin connection exists for it" % (c.name, c.recv[:40])))
             if c.eof is not None and not c.closed_by_self and all_same and tail == b"" and ended:
-                fails.append(("served", "%s: well-formed request(s) for the listening origin %s, but the proxy closed the connection without an answer (origin never saw a connection)" % (c.name, ep)))
-            continue
-        # bytes at the origin
+                f.append(("served", "%s: well-formed request(s) for the listening origin %s, but the proxy closed the connection without an answer (origin never saw a connection)" % (c.name, ep)))
+            return f
         got, gtail = split_requests(oc.recv)
         for i, g in enumerate(got):
             if i >= len(exp):
-                if all_same: fails.append(("origin_bytes", "origin %s received more requests than %s sent: %r" % (ep, c.name, g[:60])))
+                if all_same: f.append(("origin_bytes", "origin %s received more requests than %s sent: %r" % (ep, c.name, g[:60])))
                 break
             pr, a2 = exp[i]
             pg = parse_request(g)
             want_h = dict(pr["headers"])
             if b"host" not in want_h: want_h[b"host"] = a2[0]
             if pg is None or pg["method"] != pr["method"] or pg["target"] != a2[2] or pg["version"] != b"HTTP/1.1" or pg["headers"] != want_h:
-                fails.append(("origin_bytes", "origin %s: request %d of %s arrived as %r, expected %s %s HTTP/1.1 with headers %r" % (ep, i + 1, c.name, g[:120], pr["method"], a2[2], want_h)))
+                f.append(("origin_bytes", "origin %s: request %d of %s arrived as %r, expected %s %s HTTP/1.1 with headers %r" % (ep, i + 1, c.name, g[:120], pr["method"], a2[2], want_h)))
                 break
-        if len(got) <= len(exp) and gtail and all_same and len(got) == len(exp):
-            fails.append(("origin_bytes", "origin %s received trailing bytes %r beyond the requests of %s" % (ep, gtail[:40], c.name)))
-        # bytes at the client
+        if gtail and all_same and len(got) == len(exp):
+            f.append(("origin_bytes", "origin %s received trailing bytes %r beyond the requests of %s" % (ep, gtail[:40], c.name)))
         if not oc.sent.startswith(c.recv):
-            fails.append(("relay_verbatim", "%s received %r…, not a prefix of what origin %s sent (%r…)" % (c.name, c.recv[:60], ep, oc.sent[:60])))
+            f.append(("relay_verbatim", "%s received %r…, not a prefix of what origin %s sent (%r…)" % (c.name, c.recv[:60], ep, oc.sent[:60])))
         undisturbed = (c.eof is None and oc.eof is None and not c.closed_by_self and not oc.closed_by_self and ended
                        and c.pending_sends == 0 and oc.pending_sends == 0 and oc.read_started)
         if undisturbed and all_same and tail == b"":
             if len(got) != len(exp) or gtail:
-                fails.append(("origin_complete", "origin %s received %d of the %d requests %s sent although nobody closed" % (ep, len(got), len(exp), c.name)))
+                f.append(("origin_complete", "origin %s received %d of the %d requests %s sent although nobody closed" % (ep, len(got), len(exp), c.name)))
             if c.recv != oc.sent:
-                fails.append(("relay_complete", "%s received %d of the %d bytes origin %s sent although nobody closed" % (c.name, len(c.recv), len(oc.sent), ep)))
+                f.append(("relay_complete", "%s received %d of the %d bytes origin %s sent although nobody closed" % (c.name, len(c.recv), len(oc.sent), ep)))
         if c.eof is not None and not c.closed_by_self and oc.eof is None and not oc.closed_by_self and all_same and tail == b"":
-            fails.append(("served", "%s: the proxy closed the client connection although client and origin %s were both still open and all requests were well-formed" % (c.name, ep)))
+            f.append(("served", "%s: the proxy closed the client connection although client and origin %s were both still open and all requests were well-formed" % (c.name, ep)))
+        return f
+
+    # Sessions naming one origin are served one after the other, so the origin's connections (in
+    # accept order) belong to them in order — except that a session may have ended before the proxy
+    # dialled (the client left during the lookup): every order-preserving attribution is tried, the
+    # statement holds if one of them satisfies it.
+    for ep, sess in pending.items():
+        conns = origin_conns.get(ep, [])
+        best = None
+        def rec(i, j, acc):
+            nonlocal best
+            if best is not None and len(best) == 0: return
+            if i == len(sess):
+                # connections nobody accounts for must not have carried anything
+                extra = [("origin_bytes", "origin %s: connection %s received %r, attributable to no client session" % (ep, oc.name, oc.recv[:60])) for oc in conns[j:] if oc.recv]
+                tot = acc + extra
+                if best is None or len(tot) < len(best): best = tot
+                return
+            if j < len(conns): rec(i + 1, j + 1, acc + judge(ep, sess[i], conns[j]))
+            rec(i + 1, j, acc + judge(ep, sess[i], None))
+            if j < len(conns) and not conns[j].recv and not conns[j].sent: rec(i, j + 1, acc)   # a connection that was dropped unused
+        rec(0, 0, [])
+        fails += best or []
+    # ----- lookups
+    if lookups:
+        wanted = set()
+        for c in socks.values():
+            if c.target != proxy_ep: continue
+            data = c.sent + b"".join(c.pending_data.values())
+            for r in split_requests(data)[0]:
+                pr = parse_request(r)
+                au = authority(pr["target"]) if pr else None
+                if au and not is_literal(au[0].decode("latin1")): wanted.add(au[0])
+        for nm in lookups:
+            if nm not in wanted:
+                fails.append(("lookup_is_requested_name", "the proxy looked up %r, which is not the (non-literal) host of any request a client sent" % nm)); break
     # ----- accepts the next client until stop
     # a client that closed its socket while its connect was still pending sends nothing (the simulated
     # TCP has no RST for that): the proxy may have accepted that dead connection and be waiting on it
